@@ -235,6 +235,50 @@ Definition impl_amps_old (U : mat R) (m : nat) (inp : pinput) (ts : list state) 
   let W := xmul (2 * m) U (prep_matrix_old sts) in
   map (fun t => amp_num W (2 * m) (spatial_input sts) t) ts.
 
+(* ---- a long-lived PolarizationSimulator: set_circuit / queries in any order ----
+   State: _upol (set by _prepare_circuit) and the circuit currently installed in the inner simulator (set by
+   _prepare_input at EVERY query, before the inner simulator is asked).  A query whose conversion raises leaves
+   the state untouched. *)
+Record psim := mkpsim { ps_upol : option (nat * mat R); ps_inner : option (mat R) }.
+Definition psim0 : psim := mkpsim None None.
+Inductive pop := OpSet (c : pcomp) | OpQuery (inp : pinput) (ts : list state).
+Definition pstep (s : psim) (o : pop) : psim * option (list R) :=
+  match o with
+  | OpSet c => (mkpsim (Some (pwidth c, cmat (pdouble c))) (ps_inner s), None)
+  | OpQuery inp ts =>
+      match ps_upol s with
+      | None => (s, None)
+      | Some (m, U) =>
+          let sts := prep_states inp in
+          match first_err sts with
+          | Some _ => (s, None)
+          | None =>
+              let s' := mkpsim (ps_upol s) (Some (xmul (2 * m) U (prep_matrix sts))) in
+              (s', match ps_inner s' with
+                   | Some W => Some (map (fun t => amp_num W (2 * m) (spatial_input sts) t) ts)
+                   | None => None
+                   end)
+          end
+      end
+  end.
+Fixpoint prun (s : psim) (h : list pop) : list (option (list R)) :=
+  match h with [] => [] | o :: r => let sa := pstep s o in snd sa :: prun (fst sa) r end.
+(* what a fresh simulator on the circuit set last answers *)
+Definition fresh_answer (cur : option pcomp) (inp : pinput) (ts : list state) : option (list R) :=
+  match cur with
+  | None => None
+  | Some c => match first_err (prep_states inp) with
+              | Some _ => None
+              | None => Some (impl_amps (cmat (pdouble c)) (pwidth c) inp ts)
+              end
+  end.
+Fixpoint pspec (cur : option pcomp) (h : list pop) : list (option (list R)) :=
+  match h with
+  | [] => []
+  | OpSet c :: r => None :: pspec (Some c) r
+  | OpQuery inp ts :: r => fresh_answer cur inp ts :: pspec cur r
+  end.
+
 (* ---- specification: one column U . jones_p per photon ---- *)
 (* permanent with arbitrary column vectors: amplitude of prod_p (sum_j w_p(j) a+_j)|0> on t, times sqrt(prod t!) *)
 Fixpoint permC (n : nat) (cols : list (nat -> R)) (t : state) : R :=
@@ -265,7 +309,7 @@ Arguments pwf {_}. Arguments pwfb {_}. Arguments no_empty {_}. Arguments pflatte
 Arguments ones {_}. Arguments is_empty_sub {_}.
 Arguments jones_label {_}. Arguments jones_standard {_}. Arguments jones_quarter {_}. Arguments cos_q {_}.
 Arguments sin_q {_}. Arguments ipow {_}.
-Arguments veqb {_}. Arguments inner {_}. Arguments mstep {_}. Arguments mode_prep {_}. Arguments mblock {_}. Arguments mblock_old {_}. Arguments prep_matrix {_}. Arguments impl_amp {_}. Arguments impl_amps {_}.
+Arguments veqb {_}. Arguments inner {_}. Arguments mstep {_}. Arguments mode_prep {_}. Arguments mblock {_}. Arguments mblock_old {_}. Arguments prep_matrix {_}. Arguments impl_amp {_}. Arguments impl_amps {_}. Arguments psim0 {_}. Arguments OpSet {_}. Arguments OpQuery {_}. Arguments pstep {_}. Arguments prun {_}. Arguments pspec {_}. Arguments fresh_answer {_}. Arguments ps_upol {_}. Arguments ps_inner {_}. Arguments mkpsim {_}.
 Arguments mcounts {_}. Arguments merr {_}. Arguments bdiag {_}. Arguments bentry {_}. Arguments idblock {_}.
 Arguments prep_states {_}. Arguments first_err {_}. Arguments spatial_input {_}. Arguments prep_matrix_old {_}.
 Arguments no_photon {_}. Arguments convert_old {_}. Arguments ConvErr {_}. Arguments ConvNoMatrix {_}. Arguments ConvOk {_}.
